@@ -147,6 +147,31 @@ def run(tier):
             gr = hs.Grid(version='3.0', columns=[('ts', []), ('n', [])])
             gr.extend([{'ts': cat0.value('dt', '3.0', a)[1], 'n': 1}, {'ts': cat0.value('dt', '3.0', b)[1], 'n': 2}])
             season_docs.append(A.doc([gr]))
+        # fixed-offset date-times within hours of a daylight-saving switch of a zone that has that offset on one side of
+        # the switch: the zone the writer picks must have the offset AT THAT INSTANT (seeded sample of zones x switches)
+        import datetime as _dt
+        import pytz
+        near = []
+        for zn in ('America/Adak', 'America/New_York', 'Europe/Berlin', 'Australia/Sydney', 'Australia/Lord_Howe',
+                   'Europe/London', 'America/St_Johns', 'Pacific/Auckland', 'Australia/Adelaide', 'America/Santiago',
+                   'America/Anchorage', 'Europe/Lisbon', 'Asia/Tehran', 'America/Havana'):
+            z = pytz.timezone(zn)
+            tt, ti = z._utc_transition_times, z._transition_info
+            for i in range(1, len(tt)):
+                if not (2019 <= tt[i].year <= 2023):
+                    continue
+                for dh in (-7, -3, -1, 1, 3, 7):
+                    inst = pytz.utc.localize(tt[i] + _dt.timedelta(hours=dh, minutes=30))
+                    off = inst.astimezone(z).utcoffset()       # the offset in force in that zone at that instant
+                    mins = int(off.total_seconds() // 60)
+                    if off.total_seconds() == mins * 60:
+                        near.append(inst.astimezone(pytz.FixedOffset(mins)))
+        rng.shuffle(near)
+        per = 10
+        for k in range(3 if tier == 'quick' else 12):
+            gr = hs.Grid(version='3.0', columns=[('ts', []), ('n', [])])
+            gr.extend([{'ts': v, 'n': j} for j, v in enumerate(near[k * per:(k + 1) * per])])
+            season_docs.append(A.doc([gr]))
         docs2 = season_docs + docs2
         # unofficial version spellings are part of the quantifier: respell a share of the versions
         for k, d in enumerate(docs2):
